@@ -45,11 +45,15 @@ def gen_cases(run, n):
     return cases
 
 
-def main(run):
-    info = proof_stage(run, "C02", extra_targets=["corr/C02_corr.vo"])
-    harness_build()
-    n = 120 if run.tier == "quick" else 1500
-    cases = gen_cases(run, n)
+def main(run, only=None):
+    """only: the cases of a replay (no generation, no proof stage, no extra stage, no verdict)"""
+    if only is None:
+        info = proof_stage(run, "C02", extra_targets=["corr/C02_corr.vo"])
+        harness_build()
+        n = 120 if run.tier == "quick" else 1500
+        cases = gen_cases(run, n)
+    else:
+        cases = only
     reqs = []
     for c in cases:
         ops = [{"op": "txns"}, {"op": "balance", "prices": False, "ras": [esc_re(x) for x in c["names"]]}]
@@ -101,13 +105,15 @@ def main(run):
             run.violation("correspondence broken: model Balance.balance_report differs from implementation (spec holds on this input)",
                           {"correspondence": "C02_corr.c02_case", "journal": c["text"], "selected_accounts": c["names"],
                            "implementation_output": c["impl"]}, found_input=False)
+    if only is not None:
+        return None
     # extra stage (extension T01, DESIGN section 12): the rendered balance and balance-group texts
     # against the text model ReportText.v, byte for byte
     import t01_text
     ok_t, log_t = coq_make(["props/T01.vo"])
     if not ok_t:
         run.violation("proof obligation does not check: props/T01.v (report text model) failed to build",
-                      {"theorem_file": "coq/props/T01.v", "log": log_t[-2000:]}, found_input=False)
+                      {"theorem_file": "coq/props/T01.v", "log": log_t[-2000:], "stage": "T01"}, found_input=False)
     else:
         for kind in ("balance", "balgrp"):
             t01_text.run_text_stage(run, kind, n=(25 if run.tier == "quick" else 300))
@@ -121,6 +127,18 @@ def main(run):
 
 
 def replay(run, path):
-    j = json.load(open(path))
-    print(json.dumps(j, indent=1, ensure_ascii=False)[:4000])
-    return 0
+    """the stored journal + literal account selection again: harness (balance) + c02_case; replays of the T01 text stage
+    go to t01.replay (common.replay_begin)"""
+    j, rp, rc = replay_begin(run, path)
+    if rc is not None:
+        return rc
+    if not isinstance(rp.get("journal"), str):
+        return replay_print(j)
+    print(j.get("what"))
+    c = {"text": rp["journal"], "names": list(rp.get("selected_accounts") or []), "src": "replay"}
+    print("journal:\n%s\nselected accounts: %s" % (c["text"], c["names"]))
+    corr_build("C02")
+    harness_build()
+    main(run, only=[c])
+    print("implementation now: %s" % json.dumps(c.get("impl", "journal not loaded / balance not reached"), ensure_ascii=False)[:3000])
+    return replay_verdict(run, path, j, "the balance report of the stored journal is the exact-sum report and the model agrees (or the case is not evaluated: rejected journal / outside the exact domain)")
